@@ -653,6 +653,101 @@ func c03Cli(c *Case) {
 	c.Held()
 }
 
+// c03LaterPipe: two file operands, a regular file holding a complete stream and then a named pipe that has no
+// writer yet. The values of the first file are processed, and their output written, without waiting for the second
+// input to become available; when the pipe is then fed, its values follow.
+func c03LaterPipe(c *Case) {
+	for k := 0; k < 6; k++ {
+		rng := caseRng(c.Seed, "C03-later-pipe", k)
+		d1, d2 := c03Stream(rng), c03Stream(rng)
+		var vals [][]byte
+		n1 := 0
+		for i, data := range [][]byte{d1, d2} {
+			for _, v := range splitStream(data).values {
+				vals = append(vals, data[v.start:v.end])
+			}
+			if i == 0 {
+				n1 = len(vals)
+			}
+		}
+		lens, full := c03Outputs(vals)
+		full1, full2 := "", full
+		if n1 > 0 {
+			full1, full2 = full[:lens[n1-1]], full[lens[n1-1]:]
+		}
+		first := filepath.Join(c.env.Scratch, fmt.Sprintf("first-%d.json", k))
+		fifo := filepath.Join(c.env.Scratch, fmt.Sprintf("later-%d.fifo", k))
+		os.Remove(fifo)
+		if os.WriteFile(first, d1, 0o644) != nil || syscall.Mkfifo(fifo, 0o600) != nil {
+			c.Inconclusive("cli-fifo-setup-failed")
+			continue
+		}
+		cmd := exec.Command(c.env.Jqawk, "--", c03Prog, first, fifo)
+		cmd.Stdin = bytes.NewReader(nil)
+		var out lockedBuf
+		var errb bytes.Buffer
+		cmd.Stdout, cmd.Stderr = &out, &errb
+		if err := cmd.Start(); err != nil {
+			c.Inconclusive("cli-start-failed")
+			os.Remove(fifo)
+			continue
+		}
+		heartbeat()
+		quiet := waitIdle(cmd.Process.Pid, 5*time.Second)
+		got := out.Len()
+		if quiet && got < len(full1) {
+			time.Sleep(300 * time.Millisecond)
+			got = out.Len()
+		}
+		// now give the pipe its writer and its values
+		fed := make(chan bool, 1)
+		go func() {
+			f, err := os.OpenFile(fifo, os.O_WRONLY, 0)
+			if err != nil {
+				fed <- false
+				return
+			}
+			f.Write(d2)
+			f.Close()
+			fed <- true
+		}()
+		done := make(chan error, 1)
+		go func() { done <- cmd.Wait() }()
+		timedOut := false
+		select {
+		case <-done:
+		case <-time.After(20 * time.Second):
+			cmd.Process.Kill()
+			timedOut = true
+		}
+		if f, err := os.OpenFile(fifo, os.O_RDONLY|syscall.O_NONBLOCK, 0); err == nil { // release a writer that is still blocked
+			f.Close()
+		}
+		select {
+		case <-fed:
+		case <-time.After(5 * time.Second):
+		}
+		os.Remove(fifo)
+		os.Remove(first)
+		c.Count("cli_streams_with_a_later_named_pipe")
+		switch {
+		case timedOut:
+			c.Inconclusive("cli-timeout")
+		case !quiet:
+			c.Inconclusive("cli-not-quiescent")
+		case got < len(full1):
+			c.NonTrivial("later-pipe:" + string(d1))
+			c.Violation(fmt.Sprintf("binary, a file followed by a named pipe without a writer: the process is waiting (all threads asleep) but only %d of the %d output bytes of the first file's values are written | first file %s", got, len(full1), describeBytes(d1)), nil, map[string]any{"first": string(d1), "second": string(d2)})
+		case (out.String() != full1+full2 && !sameLinesOrderFree(full1+full2, out.String())) || cmd.ProcessState.ExitCode() != 0:
+			c.NonTrivial("later-pipe:" + string(d1))
+			c.Violation(fmt.Sprintf("binary, a file followed by a named pipe: exit %d, stdout differs from the expected output: %s", cmd.ProcessState.ExitCode(), diffAt(full1+full2, out.String())), nil, map[string]any{"first": string(d1), "second": string(d2), "stderr": errb.String()})
+		default:
+			c.NonTrivial("later-pipe:" + string(d1))
+			c.Held()
+		}
+	}
+}
+
 type lockedBuf struct {
 	mu chan struct{}
 	b  bytes.Buffer
@@ -820,6 +915,7 @@ func c03Run(c *Case) {
 		c03Big(c)
 		c03Shapes(c)
 		c03Retention(c)
+		c03LaterPipe(c)
 	case c.Idx < 3+ncli:
 		c03Cli(c)
 	default:
@@ -830,7 +926,7 @@ func c03Run(c *Case) {
 func init() {
 	register(&Prop{
 		ID: "C03", Level: "fault_enumeration",
-		Rule:          "fault enumeration per generated value stream (1-6 values: arrays, objects, scalars, separators none/space/newline/CRLF/tab): 12 chunk plans on the intact stream (1 byte per read, 2, 7, whole, random partitions with (0,nil) reads, final (n,EOF) or (0,EOF)) which must all agree; EVERY truncation point; a reader error injected at EVERY offset twice, as (0,err) and as (n>0,err); EVERY single-byte deletion plus sampled substitutions and insertions of structural and control bytes (0x00, 0x0B, 0x0C, 0x1C-0x1F, 0x7F, 0x85, 0xA0); 29 fixed streams from the property (stray closers, garbage between values, touching values, BOM, form feed). Oracle: a hand-written stream splitter gives the complete values and whether the rest is clean/truncated/damaged; expected output = reference model on those values; outcome must be ok for a clean stream and a JSON error naming the file otherwise; the reader/writer ledger checks at every Read call that every value handed out together with one further byte already has its output written. Streams with one value of 4 KiB - 1 MiB (string, array, object; first / in the middle / last) among small ones under 5 read plans (all at once, one value per read, 64 KiB / 4 KiB / random blocks). 3 programs that keep every root (BEGINFILE / rules / ENDFILE) x 8 streams of several top-level arrays and objects: a kept value is not disturbed by later values; 14 program shapes (no rules, BEGIN only, END only, function only, body-less pattern, ...) x 14 streams: a damaged stream is a JSON error whatever the program looks like. Binary level: the stream fed chunk by chunk on stdin or (every third case) through a named pipe given as a file argument; after each chunk the process is observed waiting for input via /proc (blocked in read(0), or for the named pipe: all threads asleep and no CPU time used between two observations) and the output due so far must be on the pipe; directory and /proc/self/mem as input; EIO injected with strace on read 1, 2, 3 of a file. Non-trivial = stream with >= 2 values; distinct by (stream, damage kind, position).",
+		Rule:          "fault enumeration per generated value stream (1-6 values: arrays, objects, scalars, separators none/space/newline/CRLF/tab): 12 chunk plans on the intact stream (1 byte per read, 2, 7, whole, random partitions with (0,nil) reads, final (n,EOF) or (0,EOF)) which must all agree; EVERY truncation point; a reader error injected at EVERY offset twice, as (0,err) and as (n>0,err); EVERY single-byte deletion plus sampled substitutions and insertions of structural and control bytes (0x00, 0x0B, 0x0C, 0x1C-0x1F, 0x7F, 0x85, 0xA0); 29 fixed streams from the property (stray closers, garbage between values, touching values, BOM, form feed). Oracle: a hand-written stream splitter gives the complete values and whether the rest is clean/truncated/damaged; expected output = reference model on those values; outcome must be ok for a clean stream and a JSON error naming the file otherwise; the reader/writer ledger checks at every Read call that every value handed out together with one further byte already has its output written. Streams with one value of 4 KiB - 1 MiB (string, array, object; first / in the middle / last) among small ones under 5 read plans (all at once, one value per read, 64 KiB / 4 KiB / random blocks). 3 programs that keep every root (BEGINFILE / rules / ENDFILE) x 8 streams of several top-level arrays and objects: a kept value is not disturbed by later values; 14 program shapes (no rules, BEGIN only, END only, function only, body-less pattern, ...) x 14 streams: a damaged stream is a JSON error whatever the program looks like. Binary level: the stream fed chunk by chunk on stdin or (every third case) through a named pipe given as a file argument; after each chunk the process is observed waiting for input via /proc (blocked in read(0), or for the named pipe: all threads asleep and no CPU time used between two observations) and the output due so far must be on the pipe; a regular file followed by a named pipe without a writer (the first file's output must be written while the process sleeps waiting for the pipe; the pipe's values follow when it is fed); directory and /proc/self/mem as input; EIO injected with strace on read 1, 2, 3 of a file. Non-trivial = stream with >= 2 values; distinct by (stream, damage kind, position).",
 		NumCases:      c03Cases,
 		Run:           c03Run,
 		MinConclusive: func(tier string) int { return 50000 },
